@@ -11,6 +11,7 @@ LIB-SSE CODE
 @description: 
 """
 import json
+import os
 import pathlib
 import pickle
 import shutil
@@ -55,8 +56,13 @@ def write_service_meta(sid: str, meta: dict):
     if not service_dir_path.exists():
         return
 
-    with open(service_dir_path.joinpath("service_meta"), "wb") as f:
+    # write to a temporary name and rename: opening service_meta itself for writing truncates the last
+    # durable state record, and a crash before the new record is written would leave the service unloadable
+    meta_path = service_dir_path.joinpath("service_meta")
+    tmp_path = service_dir_path.joinpath("service_meta.tmp")
+    with open(tmp_path, "wb") as f:
         pickle.dump(meta, f)
+    os.replace(tmp_path, meta_path)
 
 
 def read_encrypted_database(sid: str) -> bytes:
